@@ -1,5 +1,5 @@
 #!/venv/bin/python
-"""tools/seed_matrix.py [--own]: every seeded change x every check (scratch copies of /repo's package, removed at once).
+"""tools/seed_matrix.py [--own] [seed ids]: every seeded change x every check (scratch copies of /repo's package, removed at once).
 Writes seeded/MATRIX.json and prints one line per seed."""
 import concurrent.futures as cf, glob, json, os, shutil, subprocess, sys, tempfile
 ALL = [f"C{i:02d}" for i in range(1, 19)]
@@ -26,7 +26,12 @@ def one(sd):
         shutil.rmtree(d, ignore_errors=True)
     return sid, res
 seeds = sorted(x for x in glob.glob("/verif/seeded/C*") if os.path.isdir(x))
+only = [a for a in sys.argv[1:] if not a.startswith("--")]
 out = {}
+if only:
+    # tools/seed_matrix.py C02-O C05-O: refresh these rows only, keep the others as recorded
+    seeds = [s for s in seeds if os.path.basename(s) in only]
+    out = json.load(open("/verif/seeded/MATRIX.json"))
 with cf.ThreadPoolExecutor(4) as ex:
     for sid, res in ex.map(one, seeds):
         out[sid] = res
